@@ -1370,7 +1370,8 @@ SPEC['manifest']['text'] += (
     'model for all inputs by c02_src_constructor) that the _hashes of every returning Cell.__init__ are sha256 of a list of inputs, at most bit_length(mask)+1 of '
     'them, each at most 2 + max(len(data_bytes), 32) + 34*len(refs) bytes (<= 266 for <= 1023 bits and <= 4 references), in total at most the cost model\'s '
     'ctorBytes, and that stored hashes stay <= 32 bytes (closed under the constructor); c19_src_hash_input_len: a hash function agreeing with sha256 on all '
-    'strings of at most that length gives the same constructor result, i.e. nothing longer is ever hashed; c19_src_build_bytes: n calls feed <= 2394*n bytes. '
+    'strings of at most that length gives the same constructor result, i.e. nothing longer is ever hashed; c19_src_build_bytes: n calls feed <= 2394*n bytes; '
+    'the per-input bound is also evaluated on CPython for every sha256 object of every constructed DAG (build:sha-input-len). '
     'HEADER WORK ON THE SOURCE: c19_src_header_work_partial proves on the regenerated deserialize_boc_header that a returning parse read exactly 3 size fields, '
     'roots_num root indices and cells_num index entries after the length pre-checks (3 + roots + index <= len - 3, size_bytes / offset_bytes >= 1) and ran the '
     'Python CRC loop once over exactly len - 4 bytes; for raising header runs the counts remain the cost model bocCost.hdr / crc.')
